@@ -212,6 +212,25 @@ def run(ctx):
     ctx.count("registered/prefixes", len(prefixes) if ctx.shard == 0 else 0)
     ctx.count("registered/units", len(units) if ctx.shard == 0 else 0)
 
+    # ---- units in which decimal and binary prefixes have cancelled ((G*bit)*byte/(G*byte), (k*m)*(Gi*B)/((Gi*m)*(k*B))): what
+    # is left of the prefix is 10**1.8e-15 or 2**-4e-16 - not the identity, and the unit is not the unit without it
+    if ctx.shard == 0:
+        si_p = [pools.prefixes[n_] for n_ in ("giga", "kilo", "mega", "milli", "tera") if n_ in pools.prefixes]
+        iec_p = [pools.prefixes[n_] for n_ in ("gibi", "kibi", "mebi") if n_ in pools.prefixes]
+        bit_, byte_, meter_ = pools.units.get("bit"), pools.units.get("byte"), pools.units["meter"]
+        if bit_ is not None and byte_ is not None:
+            for sp in si_p:
+                for bp in iec_p:
+                    for label_, make in ((f"({sp.name}*bit)*byte/({sp.name}*byte)", lambda: (sp * bit_) * byte_ / (sp * byte_)),
+                                         (f"({sp.name}*m)*({bp.name}*B)/(({bp.name}*m)*({sp.name}*B))", lambda: (sp * meter_) * (bp * byte_) / ((bp * meter_) * (sp * byte_))),
+                                         (f"({sp.name}*{bp.name}*m)/({bp.name}*m)/{sp.name}", lambda: ((sp * bp) * meter_) / (bp * meter_) / (sp * m.One))):
+                        try:
+                            u_ = make()
+                        except Exception:
+                            continue
+                        ctx.count("units_with_a_cancelled_mixed_base_prefix")
+                        roundtrip_singleton("unit", label_, u_, False)
+
     # ---- compound / prefixed units and quantities ---------------------------------------------------
     n = ctx.scale(1500, 60000)
     cross = []
